@@ -255,6 +255,8 @@ func checkC20(res *Result) {
 			res.bad("C20-R4", fname(fn), p.pos(fn), "the value is read from the Database once", fmt.Sprintf("%d Get calls", len(gets)))
 		}
 	}
+	res.Rule("C20-R6", "'with bto/bcc removed' holds for the bytes served: every type with bto / bcc claims the member in the spelling its property reads it, so that no raw copy survives among the unknown members and is written back after the scrub (shared with C03-R7)")
+	checkHiddenClaimed(res, "C20-R6")
 	res.Rule("C20-R5", "'later duplicates of an id': the id by which inbox items are compared is the one notion of identity of the library — GetId: JSON-LD id first, href only without one; ToId: GetId of an embedded value or the IRI (shared with C06-R7)")
 	checkIdentity(res, p, "C20-R5")
 	res.Assumptions = append(res.Assumptions, "net/http sends headers set before WriteHeader and ignores later ones", "value flow is an over-approximation")
